@@ -16,6 +16,14 @@ every call is appended to a LOG (`Req`), which is the subject of C04.
 Every Go panic is an explicit outcome (`Panic`): the unchecked type assertions `.(expr.Const)`, the
 `bug: …` panics, the panics of `MustIP`, and the panics of the memory layers underneath.
 
+REPAIR F45 (in the code since the `fix:` commit for F45): a memory access whose exclusive end is not an address
+(`addr + w ≥ 2^64`) used to panic inside the memories (`interval.New(addr, addr+w)`).  Now `checkAccess(addr, w)`
+— at the top of `memValue`, and in `Step` over ALL evaluated effects before the first one is applied — panics
+with the private value `accessError{addr, w}`, which the `defer`/`recover` of `Step` turns into the ordinary
+error `(nil, err)`.  The model follows that literally: evaluation stops with `Stop.access c addr w`, where `c` is
+the mutable state at that moment (Go mutates `e.State` in place: the values already fetched from the provider
+stay stored), and `step` reports `Outcome.accessErr`: nothing applied, the instruction pointer unchanged.
+
 REPAIRS the model follows (the pinned code violates C03 without them):
 * F03: `memValue` type-asserts the result of `Mems.Load` to `expr.Const`; a load that is composed of
   several stored pieces (two stores of different widths, image bytes + written bytes, a cut piece of a
@@ -68,6 +76,8 @@ inductive Panic where
   | recordNotConst
   /-- `Step`: "bug: state change couldn't be applied" -/
   | applyRefused
+  /-- `Step`, the check of the stores: `mStore.Addr().(expr.Const)` -/
+  | checkNotConst
   /-- a panic of the memories underneath (`Mems.Load`, `Mems.Missing`, `Mems.Store`) -/
   | mem (f : Fail)
   deriving DecidableEq, Repr, Inhabited
@@ -150,12 +160,24 @@ structure Ctx where
   rep : Report := {}
   deriving Repr, Inhabited
 
+/-- how an evaluation inside `Step` stops early: by a Go panic.  `access` is the panic with the private value
+`accessError{addr, w}` of `checkAccess`, the one `Step` recovers from; it carries the mutable part of the
+emulator at that moment (the state with the provider fills made so far, and their log) -/
+inductive Stop where
+  | panic (p : Panic)
+  | access (c : Ctx) (addr w : Nat)
+  deriving Repr, Inhabited
+
+/-- the condition of `checkAccess(addr, w)`: `addr+model.Addr(w) < addr` in `uint64` — the exclusive end of the
+access is not an address (it is `2^64`, or it wrapped) -/
+def accessBad (addr w : Nat) : Bool := (addr + w) % 2 ^ 64 < addr
+
 /-- `regValue` (with REPAIR F70) -/
 def regValue (p : Provider) (code : CodeView) (c : Ctx) (key : String) (w : Nat) :
-    Except Panic (List UInt8 × Ctx) :=
+    Except Stop (List UInt8 × Ctx) :=
   match c.st.regs.load key w with
   | some (.const bs) => .ok (bs, c)
-  | some _ => .error .regNotConst
+  | some _ => .error (.panic .regNotConst)
   | none =>
     let full := max w (code.regWidth key)
     let val := Const.withWidth (p.reg key full) full
@@ -164,7 +186,7 @@ def regValue (p : Provider) (code : CodeView) (c : Ctx) (key : String) (w : Nat)
                log := c.log ++ [.reg key full] })
 
 /-- `evalRegsFully`: `ReplaceAll[expr.RegLoad]`, bottom-up, left to right -/
-def evalRegs (p : Provider) (code : CodeView) : Expr → Ctx → Except Panic (Expr × Ctx)
+def evalRegs (p : Provider) (code : CodeView) : Expr → Ctx → Except Stop (Expr × Ctx)
   | .const bs, c => .ok (.const bs, c)
   | .binary op a b w, c =>
     match evalRegs p code a c with
@@ -196,48 +218,49 @@ def evalRegs (p : Provider) (code : CodeView) : Expr → Ctx → Except Panic (E
     | .ok (v, c1) => .ok (.const v, { c1 with rep := c1.rep.inputReg k v })
 
 /-- the loop of `memValue` over the missing intervals: ask, `WithWidth`, `Mems.Store` -/
-def fillMissing (p : Provider) (key : String) : List Intv → Ctx → Except Panic Ctx
+def fillMissing (p : Provider) (key : String) : List Intv → Ctx → Except Stop Ctx
   | [], c => .ok c
   | i :: is, c =>
     let a := ibegin i
     let w := ilen i
     let val := Const.withWidth (p.mem key a w) w
     match c.st.mems.store key a (.const val) w with
-    | .error f => .error (.mem f)
+    | .error f => .error (.panic (.mem f))
     | .ok mems' =>
       fillMissing p key is { c with st := { c.st with mems := mems' }, log := c.log ++ [.mem key a w] }
 
 /-- the type assertion after REPAIR F03: `exprtransform.ConstFold(val).(expr.Const)` -/
-def foldConst (e : Expr) : Except Panic (List UInt8) :=
+def foldConst (e : Expr) : Except Stop (List UInt8) :=
   match constFold e with
   | .const bs => .ok bs
-  | _ => .error .memNotConst
+  | _ => .error (.panic .memNotConst)
 
-/-- `memValue` (with REPAIR F03) -/
-def memValue (p : Provider) (c : Ctx) (key : String) (addr w : Nat) : Except Panic (List UInt8 × Ctx) :=
+/-- `memValue` (with REPAIR F03, and REPAIR F45: `checkAccess(addr, w)` first) -/
+def memValue (p : Provider) (c : Ctx) (key : String) (addr w : Nat) : Except Stop (List UInt8 × Ctx) :=
+  if accessBad addr w then .error (.access c addr w) else
   match c.st.mems.load key addr w with
-  | .error f => .error (.mem f)
+  | .error f => .error (.panic (.mem f))
   | .ok (some e) =>
     match foldConst e with
     | .error x => .error x
     | .ok bs => .ok (bs, c)
   | .ok none =>
     match c.st.mems.missing key addr w with
-    | .error f => .error (.mem f)
+    | .error f => .error (.panic (.mem f))
     | .ok miss =>
       match fillMissing p key miss c with
       | .error x => .error x
       | .ok c1 =>
         match c1.st.mems.load key addr w with
-        | .error f => .error (.mem f)
-        | .ok none => .error .memNotPresent
+        | .error f => .error (.panic (.mem f))
+        | .ok none => .error (.panic .memNotPresent)
         | .ok (some e) =>
           match foldConst e with
           | .error x => .error x
           | .ok bs => .ok (bs, c1)
 
 /-- `evalMemoryFully`: `ReplaceAll[expr.MemLoad]`, bottom-up, left to right -/
-def evalMem (p : Provider) : Expr → Ctx → Except Panic (Expr × Ctx)
+def evalMem (p : Provider) : Expr → Ctx → Except Stop (Expr × Ctx)
   | .const bs, c => .ok (.const bs, c)
   | .regLoad k w, c => .ok (.regLoad k w, c)
   | .binary op a b w, c =>
@@ -270,10 +293,10 @@ def evalMem (p : Provider) : Expr → Ctx → Except Panic (Expr × Ctx)
         match memValue p c1 key addr w with
         | .error e => .error e
         | .ok (v, c2) => .ok (.const v, { c2 with rep := c2.rep.memRead key addr v })
-      | _ => .error .addrNotConst
+      | _ => .error (.panic .addrNotConst)
 
 /-- `eval` -/
-def eval (p : Provider) (code : CodeView) (ex : Expr) (c : Ctx) : Except Panic (List UInt8 × Ctx) :=
+def eval (p : Provider) (code : CodeView) (ex : Expr) (c : Ctx) : Except Stop (List UInt8 × Ctx) :=
   match evalRegs p code ex c with
   | .error e => .error e
   | .ok (e1, c1) =>
@@ -282,10 +305,10 @@ def eval (p : Provider) (code : CodeView) (ex : Expr) (c : Ctx) : Except Panic (
     | .ok (e2, c2) =>
       match constFold e2 with
       | .const bs => .ok (bs, c2)
-      | _ => .error .evalNotConst
+      | _ => .error (.panic .evalNotConst)
 
 /-- `EffectApply(ef, eval)`: Go evaluates the arguments of `NewMemStore` left to right: value, address -/
-def evalEffect (p : Provider) (code : CodeView) : Effect → Ctx → Except Panic (Effect × Ctx)
+def evalEffect (p : Provider) (code : CodeView) : Effect → Ctx → Except Stop (Effect × Ctx)
   | .memStore v k a w, c =>
     match eval p code v c with
     | .error e => .error e
@@ -299,7 +322,7 @@ def evalEffect (p : Provider) (code : CodeView) : Effect → Ctx → Except Pani
     | .ok (v', c1) => .ok (.regStore (.const v') k w, c1)
 
 /-- `EffectsApply(efs, eval)` -/
-def evalEffects (p : Provider) (code : CodeView) : List Effect → Ctx → Except Panic (List Effect × Ctx)
+def evalEffects (p : Provider) (code : CodeView) : List Effect → Ctx → Except Stop (List Effect × Ctx)
   | [], c => .ok ([], c)
   | ef :: efs, c =>
     match evalEffect p code ef c with
@@ -314,7 +337,17 @@ def isJump : Effect → Bool
   | .regStore _ k _ => k == ipKey
   | _ => false
 
-/-- the loop of `Step` over the evaluated effects: `jumped`, `recordOutput`, `State.Apply` -/
+/-- REPAIR F45, the first loop of `Step` over the evaluated effects: `checkAccess` of every `MemStore`, BEFORE
+any effect is applied (`c`: the mutable state at that moment, for the panic value) -/
+def checkStores (c : Ctx) : List Effect → Except Stop Unit
+  | [] => .ok ()
+  | .memStore _ _ (.const a) w :: efs =>
+    let addr := (Const.constUint 8 a).1
+    if accessBad addr w then .error (.access c addr w) else checkStores c efs
+  | .memStore .. :: _ => .error (.panic .checkNotConst)
+  | .regStore .. :: efs => checkStores c efs
+
+/-- the second loop of `Step` over the evaluated effects: `jumped`, `recordOutput`, `State.Apply` -/
 def applyAll : List Effect → State → Report → Bool → Except Panic (State × Report × Bool)
   | [], s, r, j => .ok (s, r, j)
   | ef :: efs, s, r, j =>
@@ -338,14 +371,24 @@ def mustIP (s : State) : Except Panic Nat :=
 /-- `expr.ConstFromUint(a)` for a `model.Addr` -/
 def addrConst (a : Nat) : Expr := .const (natToLE 8 a)
 
-/-- the three results of `Step` -/
+/-- the results of `Step` -/
 inductive Outcome where
   /-- `(step, nil)`: the new state, the report, the provider calls of this step -/
   | ok (s : State) (rep : Report) (log : List Req)
   /-- `(nil, err)`: no instruction at the instruction pointer; the state is unchanged -/
   | err
+  /-- `(nil, accessError{addr, w})` (REPAIR F45): an access of the instruction leaves the address space.  `s` is
+  the state the emulator is left in — the provider calls `log` made before the failing access stay stored, no
+  effect of the instruction is applied, the instruction pointer is not advanced -/
+  | accessErr (s : State) (log : List Req) (addr w : Nat)
   | panic (p : Panic)
   deriving Repr, Inhabited
+
+/-- the `defer`/`recover` of `Step`: exactly the panic value of `checkAccess` becomes the error; everything else
+is re-panicked -/
+def recovered : Stop → Outcome
+  | .panic e => .panic e
+  | .access c addr w => .accessErr c.st c.log addr w
 
 /-- `Emulator.Step` -/
 def step (p : Provider) (code : CodeView) (s : State) : Outcome :=
@@ -356,21 +399,24 @@ def step (p : Provider) (code : CodeView) (s : State) : Outcome :=
     | none => .err
     | some ins =>
       match evalEffects p code ins.effects { st := s } with
-      | .error e => .panic e
+      | .error e => recovered e
       | .ok (efs, c) =>
-        match applyAll efs c.st c.rep false with
-        | .error e => .panic e
-        | .ok (s', rep, jumped) =>
-          let s'' := if jumped then s'
-            else { s' with regs := s'.regs.store ipKey (addrConst ins.end_) addrWidth }
-          .ok s'' rep c.log
+        match checkStores c efs with
+        | .error e => recovered e
+        | .ok () =>
+          match applyAll efs c.st c.rep false with
+          | .error e => .panic e
+          | .ok (s', rep, jumped) =>
+            let s'' := if jumped then s'
+              else { s' with regs := s'.regs.store ipKey (addrConst ins.end_) addrWidth }
+            .ok s'' rep c.log
 
 /-- `emulator.New`: stores the instruction pointer -/
 def new (ip : Nat) (s : State) : State :=
   { s with regs := s.regs.store ipKey (addrConst ip) addrWidth }
 
 /-- the result of running `n` steps: the outcomes of the steps performed (the run ends with the first
-`err` or `panic`) and the last state -/
+error or `panic`) and the last state -/
 def run (p : Provider) (code : CodeView) : Nat → State → List Outcome × State
   | 0, s => ([], s)
   | n + 1, s =>
@@ -378,12 +424,14 @@ def run (p : Provider) (code : CodeView) : Nat → State → List Outcome × Sta
     | .ok s' rep log =>
       let r := run p code n s'
       (.ok s' rep log :: r.1, r.2)
+    | .accessErr s' log addr w => ([.accessErr s' log addr w], s')
     | o => ([o], s)
 
-/-- the whole provider log of a run -/
+/-- the whole provider log of a run (a step that fails with the access error has asked the provider, too) -/
 def logOf : List Outcome → List Req
   | [] => []
   | .ok _ _ l :: os => l ++ logOf os
+  | .accessErr _ l _ _ :: os => l ++ logOf os
   | _ :: os => logOf os
 
 /-! ### the code view of a program image -/
